@@ -17,7 +17,7 @@ RULE = ("conv probe, no scripted backend panics: (a) command lines of length lim
         "and invalid commands around the error threshold; (f) random walks without panic letters. non-trivial = the conversation "
         "contains an invalid, over-long or binary line; distinct = distinct case line | sched probe with `latestart` (the command loop does not wait "
         "for the delivery goroutine): the peer disconnects / QUITs / RSETs right after a BDAT command, SMTP and both LMTP modes, repeated: no recovered panic may be logged")
-THEOREMS = ["C19_short_lines_ok", "C19_long_line_trips", "C19_long_line_refused", "C19_error_threshold", "C19_tripped_ends_commands", "C19_resume_short_ok", "C19_resume_counts_pending", "C19_next_chunk_payload_not_counted", "C19_unusable_bdat_line_counted_on"]
+THEOREMS = ["C19_short_lines_ok", "C19_long_line_trips", "C19_long_line_refused", "C19_error_threshold", "C19_tripped_ends_commands", "C19_resume_short_ok", "C19_resume_counts_pending", "C19_next_chunk_payload_not_counted", "C19_unusable_bdat_line_counted_on", "C19_nothing_skipped_behind_mode_change"]
 signature = cc.signature
 mutate = cc.mutate
 shrink = P.shrink_resegment
@@ -166,6 +166,21 @@ def _groups0(tier, rng):
                 c.add(b"BDAT 1\r\n")
                 c.add(b"x" + bad + b"\r\n" + b"MAIL FROM:<long" + b"a" * (lim + 20) + b"@x>\r\n" + b"NOOP\r\n")
                 hist.append(c.case(seg="line") + "\tTAG=bait-only")
+    # lines that are NOT commands but look like a BDAT command, buffered behind a chunk: an answer to a 334 challenge, a line of a DATA
+    # body.  Nothing may be skipped behind the AUTH / DATA line, or the over-long line behind the look-alike escapes the limit
+    for lim in (100, 2000):
+        longl = b"NOOP " + b"x" * (lim + 100) + b"\r\n"
+        c = g.Conv(dict(maxline=lim, insecure=1, authsess=1, mechs=hx(b"PLAIN")))
+        c.add(b"EHLO x\r\n", NS="ok"); c.add(b"MAIL FROM:<s@x>\r\n", MAIL="ok"); c.add(b"RCPT TO:<r@x>\r\n", RCPT="ok")
+        c.add(b"BDAT 10\r\n12345", DATA=g.ddec(ret="prop"))
+        c.add(b"67890BDAT 0 LAST\r\nAUTH PLAIN\r\nBDAT %d\r\n" % (lim + 50) + longl + b"MAIL FROM:<long@x>\r\nQUIT\r\n")
+        hist.append(c.case(seg="line") + "\tTAG=bait-only")
+        c = g.Conv(dict(maxline=lim))
+        c.add(b"EHLO x\r\n", NS="ok"); c.add(b"MAIL FROM:<s@x>\r\n", MAIL="ok"); c.add(b"RCPT TO:<r@x>\r\n", RCPT="ok")
+        c.add(b"BDAT 10\r\n12345", DATA=g.ddec(ret="prop"))
+        c.add(b"67890BDAT 0 LAST\r\nMAIL FROM:<s2@x>\r\nRCPT TO:<r2@x>\r\nDATA\r\nBDAT %d\r\n.\r\n" % (lim + 50) + longl + b"MAIL FROM:<long@x>\r\nQUIT\r\n",
+              MAIL="ok", RCPT="ok", DATA=g.ddec(ret="prop"))
+        hist.append(c.case(seg="line") + "\tTAG=bait-only")
     for lim in (40, 2000):
         for total in (lim * 3, 9000):
             c = g.Conv(dict(maxline=lim, debug=rng.choice([0, 1])))
